@@ -2,8 +2,14 @@ package sched
 
 import (
 	"context"
+	"encoding/json"
 	"fmt"
+	"os"
+	"os/exec"
+	"runtime/debug"
 	"strings"
+	"sync"
+	"syscall"
 	"testing"
 
 	"github.com/ory/keto/verif/ev"
@@ -35,6 +41,43 @@ func TestC15(t *testing.T) {
 	run := ev.New("C15", "model_checking")
 	shard, nshards, child := ev.Shard()
 	if !child {
+		// self-referential permissions can recurse while the check is still being constructed (no
+		// scheduling point, unbounded memory): try each such configuration in a throw-away child
+		// process first; the workers do not explore configurations whose probe died
+		var bad []string
+		{
+			leaves := []int{LIncA, LTrvAP, LPermP}
+			if ev.Thorough() {
+				leaves = []int{LIncA, LIncB, LTrvAP, LTrvAB, LPermQ, LPermP}
+			}
+			var cfgs []*CfgSpec
+			for _, c := range cfgCatalogueOpt(2, leaves, 0, false, true) {
+				if c.Expr.usesLeaf(LPermP) {
+					cfgs = append(cfgs, c)
+				}
+			}
+			res := make([]bool, len(cfgs))
+			var wg sync.WaitGroup
+			sem := make(chan struct{}, ev.Workers())
+			for i, c := range cfgs {
+				wg.Add(1)
+				go func(i int, c *CfgSpec) {
+					defer wg.Done()
+					sem <- struct{}{}
+					res[i] = probeConfig(c)
+					<-sem
+				}(i, c)
+			}
+			wg.Wait()
+			for i, c := range cfgs {
+				if !res[i] {
+					bad = append(bad, c.Name)
+					run.Violation("unbounded-recursion-while-constructing-the-check", fmt.Sprintf("a check under %s makes the process die or stall without reaching a scheduling point (self-referential permission)", c.Name), map[string]any{"cfgref": c.Ref, "config": c.Name})
+				}
+			}
+			os.Setenv("VERIF_C15_SKIP", strings.Join(bad, "\n"))
+			defer func(n int) { fmt.Printf("[c15] %d self-referential configurations probed, %d died\n", n, len(bad)) }(len(cfgs))
+		}
 		cov := run.RunShards("TestC15", ev.Workers())
 		run.Assume("schedules explored at visible-operation granularity (channel, select, mutex, spawn, cancel, storage call); sequentially consistent",
 			"storage = in-memory stand-in bound to the SQL persister by the C01 conformance comparison",
@@ -44,12 +87,13 @@ func TestC15(t *testing.T) {
 	}
 	bound := 1
 	k := 2
-	deadline := ev.Deadline(200, 1500)
-	leaves := []int{LIncA, LIncB, LTrvAP}
+	deadline := ev.Deadline(260, 1500)
+	leaves := []int{LIncA, LTrvAP, LPermP}
 	if ev.Thorough() {
-		leaves = []int{LIncA, LIncB, LTrvAP, LTrvAB, LPermQ}
+		leaves = []int{LIncA, LIncB, LTrvAP, LTrvAB, LPermQ, LPermP}
 	}
-	scns := sCatalogue(k, leaves)
+	// termination is demanded of every accepted configuration, also those without a defined meaning
+	scns := sCatalogueOpt(k, leaves, true)
 	if ev.Thorough() {
 		// second pass: the quick catalogue again at deviation bound 2 (as far as the time cap allows)
 		for _, sc := range sCatalogue(k, []int{LIncA, LIncB, LTrvAP}) {
@@ -58,9 +102,18 @@ func TestC15(t *testing.T) {
 			scns = append(scns, &c)
 		}
 	}
-	w := NewWorld(t, WorldOpt{Namespaces: scns[0].Cfg.NS, Depth: 5}) // keto's default depth: keeps recursive-traverse cycles small
+	gdepth := 4 // small global depth keeps recursive-traverse / self-reference cycles small (keto's default is 5)
+	if ev.Thorough() {
+		gdepth = 5
+	}
+	w := NewWorld(t, WorldOpt{Namespaces: scns[0].Cfg.NS, Depth: gdepth})
 	var lastCfg *CfgSpec
+	skip := map[string]bool{}
+	for _, n := range strings.Split(os.Getenv("VERIF_C15_SKIP"), "\n") {
+		skip[n] = true
+	}
 	cov := struct {
+
 		scenarios, heavy, bound2, execs, trans, states, faultRuns, hangRuns, maxThreads, maxCalls, leaks, cancelledRuns int
 		complete                                                                                         bool
 		outcomes                                                                                         map[string]int
@@ -101,6 +154,9 @@ func TestC15(t *testing.T) {
 			break
 		}
 		if sc.Cfg != lastCfg {
+			if skip[sc.Cfg.Name] {
+				continue
+			}
 			w.SetNamespaces(t, sc.Cfg.NS)
 			lastCfg = sc.Cfg
 		}
@@ -214,6 +270,38 @@ func TestC15(t *testing.T) {
 		"leaf_bound":                    k,
 		"exhaustive":                    cov.complete,
 		"max_catalogue_size":            len(scns),
-		"max_global_depth":              5,
+		"max_global_depth":              gdepth,
 	})
+}
+
+
+// probeConfig runs one base-schedule check per graph under cfg in a child process with a small stack
+// and address-space limit; false if the child does not finish.
+func probeConfig(cfg *CfgSpec) bool {
+	b, _ := json.Marshal(cfg.Ref)
+	cmd := exec.Command(os.Args[0], "-test.run", "^TestC15Probe$", "-test.timeout", "60s")
+	cmd.Env = append(os.Environ(), "VERIF_PROBE_CFG="+string(b), "VERIF_SHARD=", "GOMAXPROCS=1")
+	out, err := cmd.CombinedOutput()
+	return err == nil && strings.Contains(string(out), "PROBE-OK")
+}
+
+func TestC15Probe(t *testing.T) {
+	js := os.Getenv("VERIF_PROBE_CFG")
+	if js == "" {
+		t.Skip("child of TestC15")
+	}
+	debug.SetMaxStack(64 << 20)
+	var lim syscall.Rlimit
+	lim.Cur, lim.Max = 3<<30, 3<<30
+	_ = syscall.Setrlimit(syscall.RLIMIT_AS, &lim)
+	var ref CfgRef
+	if err := json.Unmarshal([]byte(js), &ref); err != nil {
+		t.Fatal(err)
+	}
+	cfg := ref.Resolve()
+	w := NewWorld(t, WorldOpt{Namespaces: cfg.NS, Depth: 5})
+	for _, g := range graphOrder {
+		w.RunCheck(w.Rows(graphs()[g]), w.Internal(tid("o1", "p", "u")), vsched.Config{FastBase: true}, RunOpt{})
+	}
+	fmt.Println("PROBE-OK")
 }
